@@ -198,6 +198,13 @@ def attachment_violations(pkg: dict, res: dict, nc: bool = False, matched_style:
                         viols.append({"class": "description-not-line-for-line", "detail": {
                             "path": rel, "line": c["line"], "token": tok, "expected_lines": want, "comment": c["text"][:600],
                             "fingerprint": {"gkey": "param-lines"}}})
+                if ok and matched_style and info["kind"] == "X" and info.get("code"):
+                    # the code of an example line is kept as written (only the prompt is turned into a comment marker)
+                    for cl in c["text"].split("\n"):
+                        if tok in cl and re.sub(r"^\s*\*\s*", "", cl).rstrip() != "// " + info["code"]:
+                            viols.append({"class": "example-line-not-intact", "detail": {
+                                "path": rel, "line": c["line"], "token": tok, "expected": "// " + info["code"], "comment_line": cl[:200],
+                                "fingerprint": {"gkey": "example"}}})
                 if ok and info["kind"] == "P" and not nc:
                     # the line that carries a parameter's description names that parameter (checked verbatim without -nc)
                     for cl in c["text"].split("\n"):
